@@ -122,7 +122,17 @@ pub struct Cfg {
 struct Link {
     request: Option<String>,
     response: Option<String>,
+    /// simulated time at which the request / response in flight was produced
+    request_at: u64,
+    response_at: u64,
 }
+
+/// A replication exchange lives inside one connection of the consumer task: the ranges, the
+/// supplier's reply and its application follow each other within network time-outs. Anything in
+/// flight (a duplicate included) is lost once the simulated clock has moved further than this.
+/// (Found at the thorough tier: a duplicate reply delivered 15 simulated days late, after the
+/// consumer had reaped the tombstone, re-created the entry. The real transport cannot do that.)
+const LINK_TIMEOUT_S: u64 = 3600;
 
 struct SimNode {
     qs: Option<QueryServer>,
@@ -157,6 +167,8 @@ pub struct Cluster {
     /// i.e. after every clock advance of at least ten minutes each running node performs two
     /// purge cycles (purge_recycled, purge_tombstones; each its own write transaction).
     periodic_purge: Vec<bool>,
+    /// a node refused to start again (see `restart`): the run ends there
+    pub aborted: bool,
     pub out: Outcome,
     step: usize,
     kinds: Vec<u64>,
@@ -260,6 +272,7 @@ impl Cluster {
             recycled_ever: BTreeSet::new(),
             revived_ever: BTreeSet::new(),
             baseline_system: BTreeSet::new(),
+            aborted: false,
             periodic_purge: {
                 // per node: a server whose interval tasks run, next to one whose tasks do not
                 // (stopped, or simply not due) is the asymmetric case a lagging replica meets
@@ -496,10 +509,12 @@ impl Cluster {
             let mut r = block(cq.read())?;
             r.consumer_get_state()
         })();
+        let now = self.t;
         match st {
             Ok(rr) => {
                 let l = self.nodes[c].links.entry(s).or_default();
                 l.request = Some(serde_json::to_string(&rr).expect("json"));
+                l.request_at = now;
                 true
             }
             Err(_) => false,
@@ -510,7 +525,12 @@ impl Cluster {
         if !self.up(s) || c == s || c >= self.nodes.len() {
             return false;
         }
-        let Some(req) = self.nodes[c].links.get_mut(&s).and_then(|l| l.request.take()) else { return false };
+        let now = self.t;
+        let Some((req, req_at)) = self.nodes[c].links.get_mut(&s).and_then(|l| l.request.take().map(|r| (r, l.request_at))) else { return false };
+        if now.saturating_sub(req_at) > LINK_TIMEOUT_S {
+            self.out.fault("link_timeout");
+            return false;
+        }
         let rr: ReplRuvRange = serde_json::from_str(&req).expect("json");
         let sq = self.nodes[s].qs.clone().expect("up");
         let mut monitor: Option<oracles::Finding> = None;
@@ -543,6 +563,7 @@ impl Cluster {
                 }
                 let l = self.nodes[c].links.entry(s).or_default();
                 l.response = Some(serde_json::to_string(&ctx).expect("json"));
+                l.response_at = now;
                 true
             }
             Err(_) => false,
@@ -553,7 +574,13 @@ impl Cluster {
         if !self.up(c) || c == s {
             return PullResult::Skipped;
         }
+        let now = self.t;
         let Some(l) = self.nodes[c].links.get_mut(&s) else { return PullResult::Skipped };
+        if l.response.is_some() && now.saturating_sub(l.response_at) > LINK_TIMEOUT_S {
+            l.response = None;
+            self.out.fault("link_timeout");
+            return PullResult::Skipped;
+        }
         let Some(resp) = (if dup { l.response.clone() } else { l.response.take() }) else { return PullResult::Skipped };
         if dup {
             self.out.fault("msg_dup");
@@ -594,6 +621,19 @@ impl Cluster {
 
     fn restart(&mut self, n: usize) -> bool {
         let Some(path) = self.nodes[n].path.clone() else { return false };
+        // does a uuid belong to more than one stored entry (a conflict entry and an entry created
+        // again with its uuid)? kanidm accepts that create and then refuses to start (see DESIGN
+        // §10.3, observations); such a node simply stays down for the rest of the run.
+        let shared_uuid = self.nodes[n]
+            .qs
+            .as_ref()
+            .and_then(|qs| block(qs.read()).ok())
+            .and_then(|mut r| Snap::take(&mut r).ok())
+            .map(|s| {
+                let mut seen = BTreeSet::new();
+                s.entries.iter().any(|e| !seen.insert(e.get_uuid()))
+            })
+            .unwrap_or(false);
         self.nodes[n].qs = None;
         self.nodes[n].links.clear();
         let ncfg = NodeCfg { path: Some(path), pool: 4, arc: self.cfg.arc, level: DOMAIN_TGT_LEVEL };
@@ -601,6 +641,11 @@ impl Cluster {
             Ok(qs) => {
                 self.nodes[n].qs = Some(qs);
                 true
+            }
+            Err(e) if shared_uuid && format!("{e:?}").contains("CorruptedEntry") => {
+                self.out.probe("restart refused (CorruptedEntry): a uuid is carried by a conflict entry and by an entry created again");
+                self.aborted = true;
+                false
             }
             Err(e) => {
                 self.out.harness_error = Some(format!("restart of node {n} failed: {e:?}"));
@@ -1382,11 +1427,11 @@ pub fn execute(plan: &Plan, enabled: &[&'static str]) -> Outcome {
         let id = ev.get("id").and_then(|x| x.as_u64()).unwrap_or(i as u64);
         let Ok(op) = serde_json::from_value::<Op>(ev.clone()) else { continue };
         cl.apply(id, &op);
-        if cl.out.harness_error.is_some() {
+        if cl.out.harness_error.is_some() || cl.aborted {
             break;
         }
     }
-    if cfg.quiesce && cl.out.harness_error.is_none() {
+    if cfg.quiesce && cl.out.harness_error.is_none() && !cl.aborted {
         cl.quiesce();
     }
     cl.finish()
